@@ -81,6 +81,21 @@ func Close[T any](ch chan<- T) {
 	s.closeCh(chanKey(ch))
 }
 
+// Len is `len(ch)` for a channel: the number of buffered values. It is a scheduling point.
+func Len[T any](ch chan T) int {
+	s := cur()
+	if s == nil {
+		return len(ch)
+	}
+	s.retain(ch)
+	s.yield()
+	k := chanKey(ch)
+	if k == 0 {
+		return 0
+	}
+	return len(s.chanOf(k).buf)
+}
+
 // Access declares a read or write of shared variable id at this point.
 func Access(id int, write bool) {
 	if s := cur(); s != nil {
